@@ -3,7 +3,7 @@
 Three small specifications are enumerated by TLC and used as case generators with their expected answers:
 PathStrP (join / getPathName / getParentDirectory laws over all directory strings of <= 4 characters from
 {'/','a','b','.',' '} and names of <= 2 characters), PathTreeP (every directory tree of <= 4 nodes below the
-root, depth <= 3, names with a space, a leading dot and non-ASCII bytes, file sizes 0/1/5000) and VisitorP
+root, depth <= 3, names with a space, a leading dot, two leading dots and non-ASCII bytes, file sizes 0/1/5000) and VisitorP
 (nested DirectoryVisitors as a stack of saved working directories). The harness materialises each case and
 compares the real answers, cross-checked against std::filesystem. Exploration level.
 """
@@ -14,7 +14,7 @@ from lib.common import log
 
 SPEC = common.SPEC / "fs"
 FLAGS = ["-O1", "-g", "-UNDEBUG", "-fsanitize=address,undefined", "-fno-sanitize=nonnull-attribute", "-fno-omit-frame-pointer"]
-NAMES = {1: "a", 2: "b c", 3: ".xé"}
+NAMES = {1: "a", 2: ".b c", 3: "..xé"}
 SIZES = {"f0": 0, "f1": 1, "f5000": 5000}
 ASSUMPTIONS = [
     "POSIX paths with '/' as the only separator; no symlinks or special files; trees are private scratch directories",
@@ -167,3 +167,13 @@ def check(pid, tier, seed):
     rc = verdict.finish()
     common.write_evidence(pid, tier, seed, "exploration", cov, ASSUMPTIONS, time.time() - t0, len(verdict.violations))
     return rc
+
+
+def all_harnesses():
+    exe = harness()
+    return {exe.name: exe}
+
+
+def replay(pid, path):
+    import sys
+    return common.replay(pid, path, sys.modules[__name__])
